@@ -53,6 +53,7 @@ func (o *Operations) Update(
 	}
 
 	hdrs := []*tar.Header{}
+	var srcErr error // A source which could not be opened after earlier entries have been written
 	for {
 		file, err := getSrc()
 		if err == io.EOF {
@@ -60,6 +61,13 @@ func (o *Operations) Update(
 		}
 
 		if err != nil {
+			// Index the entries that are on the tape already before giving up
+			if len(hdrs) > 0 {
+				srcErr = err
+
+				break
+			}
+
 			return []*tar.Header{}, err
 		}
 
@@ -106,6 +114,13 @@ func (o *Operations) Update(
 
 			f, err = file.GetFile()
 			if err != nil {
+				// Index the entries that are on the tape already before giving up
+				if len(hdrs) > 0 {
+					srcErr = err
+
+					break
+				}
+
 				return []*tar.Header{}, err
 			}
 
@@ -298,7 +313,7 @@ func (o *Operations) Update(
 	}
 	defer o.backend.CloseReader()
 
-	return hdrs, recovery.Index(
+	if err := recovery.Index(
 		reader,
 		o.backend.MagneticTapeIO,
 		o.metadata,
@@ -331,5 +346,9 @@ func (o *Operations) Update(
 				Header:  hdr,
 			})
 		},
-	)
+	); err != nil {
+		return hdrs, err
+	}
+
+	return hdrs, srcErr
 }
